@@ -9,6 +9,7 @@ import (
 	"sort"
 	"strconv"
 	"sync"
+	"time"
 
 	"cedarverif/internal/core"
 	"cedarverif/internal/decreplay"
@@ -84,16 +85,17 @@ func run(c *core.Ctx) {
 		}
 		// one TLC run: Gen_Decoder has Decoder's Init/Next, checks Decoder's invariants
 		// (TypeOK NoPanic Bounded CapHonoured CapFails) and prints every behaviour
-		raws := kit.Generate(c, "Gen_Decoder.tla", gen, tlc.Options{Timeout: 0})
+		raws := kit.Generate(c, "Gen_Decoder.tla", gen, tlc.Options{Timeout: 25 * time.Minute})
 		if c.IsBroken() {
 			return
 		}
 		nBeh = len(raws)
 		muts := 3
 		extra := 0
+		maxMembers := 4
 		if c.Thorough() {
-			muts = 4
 			extra = 200000
+			maxMembers = 8
 		}
 		id := 0
 		add := func(j decreplay.Job) {
@@ -138,8 +140,8 @@ func run(c *core.Ctx) {
 			for _, lay := range layouts {
 				if members > 1 {
 					n := members
-					if !c.Thorough() && n > 4 {
-						n = 4
+					if n > maxMembers {
+						n = maxMembers
 					}
 					for m := 0; m < n; m++ {
 						mm := m
@@ -153,7 +155,11 @@ func run(c *core.Ctx) {
 				}
 			}
 			// seeded byte-level mutations around the model-generated input
-			for k := 0; k < muts; k++ {
+			nm := muts
+			if c.Thorough() && (b.Scn.Fam == "text" || b.Scn.Fam == "watch") {
+				nm = 1 // the text space is already enumerated one token longer
+			}
+			for k := 0; k < nm; k++ {
 				seed := int64(hk)<<20 | int64(k+1) | c.Seed<<40
 				add(decreplay.Job{B: b, Layout: int((hk >> 3) % 3), Member: int(hk>>5) % members, Mut: seed})
 			}
